@@ -711,17 +711,21 @@ struct RcSim
 
     bool feed(double x)
     {
-        double const pl = lp->output, ph = hp->output, pin = hp->input;
+        // regime 2 (magnitudes up to 3/4 of the largest finite value, either sign): only the low-pass is driven, because
+        // the high-pass forms prev + x - prev_x and may overflow legitimately there, while a convex combination may not
+        bool const ext = regime == 2;
+        double const pl = lp->output, ph = hp->output, pin = ext ? x : hp->input;
         c.site("a_lpf_iter"); double const ol = a_lpf_iter(lp, x);
-        c.site("a_hpf_iter"); double const oh = a_hpf_iter(hp, x);
-        double const ol2 = lp2(x), oh2 = hp2(x);
+        c.site("a_hpf_iter"); double const oh = ext ? 0 : a_hpf_iter(hp, x);
+        double const ol2 = lp2(x), oh2 = ext ? 0 : hp2(x);
+        if (ext) { hp->input = x; c.st.add("probe.lowpass_extreme_magnitudes"); }
+        if (!std::isfinite(ol) || !std::isfinite(oh)) return c.fail("state-not-finite", "a_lpf_iter", "filter output %.17g / %.17g not finite after finite input %.17g (previous outputs %.17g / %.17g)", ol, oh, x, pl, ph);
         // the members re-state the formula, so a last-bit difference between the two spellings is legitimate: compare with a tolerance
         { double const tl2 = 8 * ulp_of(std::max(std::max(std::fabs(pl), std::fabs(x)), std::fabs(ol))), th2 = 8 * ulp_of(std::max(std::max(std::fabs(ph), std::fabs(x)), std::max(std::fabs(pin), std::fabs(oh))));
           if (!(std::fabs(ol2 - ol) <= tl2) || !(std::fabs(oh2 - oh) <= th2)) return c.fail("cxx-wrapper-disagrees", "a_lpf_iter", "operator() of the C++ filter objects gives %.17g / %.17g, the C API %.17g / %.17g", ol2, oh2, ol, oh);
           lp2.output = ol; hp2.output = oh; hp2.input = hp->input; } // keep the replica in step so that differences do not accumulate
         ++c.steps; ++since_reset;
         if (x < lo) lo = x; if (x > hi) hi = x;
-        if (!std::isfinite(ol) || !std::isfinite(oh)) return c.fail("state-not-finite", "a_lpf_iter", "filter output not finite");
         // one-step difference equations from the filters' own previous state
         long double const wl = (1 - (long double)alpha) * pl + (long double)alpha * x;
         long double const wh = (long double)alpha * ((long double)ph + x - pin);
@@ -733,7 +737,7 @@ struct RcSim
         }
         long double const tl = 8 * (long double)ulp_of(std::max(std::fabs(pl), std::fabs(x))), th = 8 * (long double)ulp_of(std::max(std::max(std::fabs(ph), std::fabs(x)), std::fabs(pin)));
         if (fabsl(ol - wl) > tl) return c.fail("difference-equation-violated", "a_lpf_iter", "low-pass output %.17g, (1-a)*prev + a*x = %.17Lg", ol, wl);
-        if (fabsl(oh - wh) > th) return c.fail("difference-equation-violated", "a_hpf_iter", "high-pass output %.17g, a*(prev + x - prev_x) = %.17Lg", oh, wh);
+        if (!ext && fabsl(oh - wh) > th) return c.fail("difference-equation-violated", "a_hpf_iter", "high-pass output %.17g, a*(prev + x - prev_x) = %.17Lg", oh, wh);
         if (hp->input != x) return c.fail("difference-equation-violated", "a_hpf_iter", "previous-input cache not updated");
         // convex combination stays within the range of the values fed so far (and the initial zero)
         double const slack = 4 * ulp_of(std::max(std::fabs(lo), std::fabs(hi)));
@@ -754,7 +758,7 @@ struct RcSim
     void exec(Plan const &p)
     {
         SA.reset();
-        regime = (int)p.knob("regime", 0) & 1;
+        regime = (int)p.knob("regime", 0) % 3;
         lp = (a_lpf *)SA.halloc(sizeof(a_lpf)); hp = (a_hpf *)SA.halloc(sizeof(a_hpf));
         memset(lp, 0x7f, sizeof *lp); memset(hp, 0x7f, sizeof *hp);
         double a0 = regime == 0 ? (double)(mag64(p.knob("alpha", 2)) % 5) / 4.0 : (double)(mag64(p.knob("alpha", 2)) % 1001) / 1000.0;
@@ -765,7 +769,8 @@ struct RcSim
             c.opi = (int)i;
             c.st.add(std::string("op.rc.") + CTL_OP_NAMES[o.kind]);
             c.logf("op %zu %s a=%lld,%lld,%lld [alpha=%g lp=%g hp=%g]\n", i, CTL_OP_NAMES[o.kind], (long long)o.a[0], (long long)o.a[1], (long long)o.a[2], alpha, lp->output, hp->output);
-            auto inval = [&](int64_t m, int64_t e) { return toR(regime == 0 ? (double)((int64_t)(mag64(m) % 129) - 64) : value_of(1, m, e)); };
+            double const rmax = R_IS_DOUBLE ? DBL_MAX : (double)FLT_MAX;
+            auto inval = [&](int64_t m, int64_t e) { return toR(regime == 0 ? (double)((int64_t)(mag64(m) % 129) - 64) : regime == 2 ? ((mag64(e) & 1) ? -0.75 : 0.75) * rmax * ((mag64(e) & 6) ? (double)(mag64(m) % 1000 + 1) / 1000.0 : 1.0) : value_of(1, m, e)); };
             switch (o.kind)
             {
             case F_INPUT: feed(inval(o.a[0], o.a[1])); break;
@@ -797,8 +802,9 @@ struct RcSim
                 double const scale = std::max(std::max(std::fabs(cst), dl0), h0);
                 double const rate = std::min(alpha, 1 - alpha);
                 double const slack = (64 + (rate > 0 ? 8 / rate : 0)) * ulp_of(scale) + (R_IS_DOUBLE ? DBL_MIN : (double)FLT_MIN); // rounding errors of a contraction accumulate to at most ulp/(1-rate)
+                if (!std::isfinite(dl0)) { c.st.add("probe.settling_distance_not_representable_skipped"); break; }
                 if (alpha > 0 && std::fabs(lp->output - cst) > tol * dl0 + slack) c.fail("lowpass-did-not-settle", "a_lpf_iter", "%zu samples after the input became constant %.17g the output is still %.17g away (started %.17g away)", K, cst, std::fabs(lp->output - cst), dl0);
-                else if (alpha < 1 && std::fabs(hp->output) > tol * h0 + slack) c.fail("highpass-did-not-decay", "a_hpf_iter", "%zu samples after the input became constant the output is still %.17g (was %.17g)", K, hp->output, h0);
+                else if (regime != 2 && alpha < 1 && std::fabs(hp->output) > tol * h0 + slack) c.fail("highpass-did-not-decay", "a_hpf_iter", "%zu samples after the input became constant the output is still %.17g (was %.17g)", K, hp->output, h0);
                 c.st.add("probe.settling_checked");
                 break;
             }
@@ -836,7 +842,7 @@ struct RcSim
                     c.st.add("probe.gen_strict_interior_checked");
                 }
                 // the two are complementary descriptions of the same RC constant
-                if (regime == 1) reinit((mag64(o.a[2]) & 1) ? al : ah);
+                if (regime >= 1) reinit((mag64(o.a[2]) & 1) ? al : ah);
                 break;
             }
             default: break;
@@ -902,7 +908,7 @@ struct CtlEngine : Engine
                 p.set("la", (int64_t)r.range(-4, 4)); p.set("lb", (int64_t)r.range(-4, 4)); p.set("delay", (int64_t)r.below(6));
                 p.set("member_init", r.chance(1, 2)); p.set("null0", r.chance(1, 2));
             }
-            else { p.set("regime", r.chance(1, 2)); p.set("alpha", (int64_t)r.below(1001)); }
+            else { p.set("regime", r.chance(1, 2)); p.set("alpha", (int64_t)r.below(1001)); if (!tf && r.chance(1, 8)) p.set("regime", 2); }
             std::vector<int> kinds = {F_INPUT, F_INPUT, F_INPUT, F_INPUTS, F_INPUTS};
             if (r.chance(1, 2)) kinds.push_back(F_ZERO);
             if (r.chance(1, 2)) kinds.push_back(F_QUIET);
